@@ -1,17 +1,63 @@
 import EpdVerif.Drivers.Dsl
 import EpdVerif.Gen.Epd2in7_v2
-/-! model of `src/epd2in7_v2/mod.rs` (STUB: programs not yet transcribed) -/
+import EpdVerif.Gen.Type_a
+/-! model of `src/epd2in7_v2/mod.rs` -/
 namespace EpdVerif.Drivers.Epd2in7_v2
 open EpdVerif
 open EpdVerif.Gen.Epd2in7_v2
+open EpdVerif.Gen.Type_a
 
-def prog (_f : Feat) (_d : DState) : Op → Option (List Act)
+def W : Act := .wait IS_BUSY_LOW
+
+/-- `set_ram_area`: asserts only, no wait; Y bytes are masked (`& 0xFF`, `(>> 8) & 0x01`) -/
+def setRamArea (sx sy ex ey : Nat) : List Act :=
+  assertA (sx < ex) ++ assertA (sy < ey) ++
+  cmdData Command.SetRamXAddressStartEndPosition [shr8 sx 3, shr8 ex 3] ++
+  cmdData Command.SetRamYAddressStartEndPosition
+    [u8 (sy &&& 0xFF), u8 ((sy >>> 8) &&& 0x01), u8 (ey &&& 0xFF), u8 ((ey >>> 8) &&& 0x01)]
+
+/-- `set_ram_counter`: the X counter is `(x & 0xFF) as u8` (no `>> 3` in this driver) -/
+def setRamCounter (x y : Nat) : List Act :=
+  [W] ++ cmdData Command.SetRamXAddressCounter [u8 (x &&& 0xFF)] ++
+  cmdData Command.SetRamYAddressCounter [u8 (y &&& 0xFF), u8 ((y >>> 8) &&& 0x01)]
+
+def useFullFrame : List Act := setRamArea 0 0 (WIDTH - 1) (HEIGHT - 1) ++ setRamCounter 0 0
+
+def init : List Act :=
+  [.reset 200000 2000, W, .cmd Command.SwReset, W] ++
+  useFullFrame ++
+  cmdData Command.DataEntryModeSetting [0x03]
+
+def updateFrame (b : Bytes) : List Act := [W] ++ useFullFrame ++ cmdData Command.WriteRam b
+
+def displayFrame (d : DState) : List Act :=
+  [W] ++
+  (match d.refresh with
+   | .full => cmdData Command.DisplayUpdateControl2 [0xF7]
+   | .quick => cmdData Command.DisplayUpdateControl2 [0xC7]) ++
+  [.cmd Command.MasterActivation, W]
+
+def prog (_f : Feat) (d : DState) : Op → Option (List Act)
+  | .new => some init
+  | .wake => some init
+  | .sleep => some ([W] ++ cmdData Command.DeepSleepMode [0x01])
+  | .upd b => some (updateFrame b)
+  | .part b x y w h =>
+    some ([W] ++ setRamArea x y (x + w) (y + h) ++ setRamCounter x y ++ cmdData Command.WriteRam b)
+  | .disp => some (displayFrame d)
+  | .updisp b => some (updateFrame b ++ displayFrame d)
+  | .clear =>
+    some ([W] ++ useFullFrame ++ [.cmd Command.WriteRam, .rep (byteValue d.bg) (WIDTH / 8 * HEIGHT)])
+  | .bg c => some [.upd (fun d => { d with bg := c })]
+  | .lut r =>
+    some (match r with | some m => [Act.upd (fun d => { d with refresh := m })] | none => [])
+  | .wait => some [W]
   | _ => none
 
 def panel (f : Feat) : Panel :=
   { name := "epd2in7_v2", width := WIDTH, height := HEIGHT, single := SINGLE_BYTE_WRITE,
     busyLow := IS_BUSY_LOW, family := .ssd, colors := 2,
-    init := { bg := DEFAULT_BACKGROUND_COLOR },
+    init := { bg := DEFAULT_BACKGROUND_COLOR, refresh := .full },
     prog := prog f,
     ctrl := .ssd (Ssd.por false 22 296) }
 
